@@ -10,6 +10,7 @@ import PicoVerif.Spec.Formats
 import PicoVerif.Model.Lexer
 import PicoVerif.Model.Writers
 import PicoVerif.Spec.LuaLex
+import PicoVerif.Model.PicoGrammar
 /-! Line-protocol driver over the executable models (compiled; must not import Mathlib).
 One request per line: `op arg arg ...`; one response line per request.
 Byte strings travel as lower-case hex (`-` = empty). -/
@@ -107,6 +108,40 @@ def nameCfg (mode keep : String) : Option Wr.NameCfg :=
   else if mode == "keepall" then some { keepAll := true }
   else if mode == "keepfile" then (parseHex keep).map fun c => { keep := some (Wr.readNamesFile c) }
   else none
+
+partial def showTree : Peg.Tree → String
+  | .leaf _ => ""
+  | .node k s e cs => "(" ++ (Gram.kindNames.getD k "?") ++ " " ++ toString s ++ " " ++ toString e ++ String.join (cs.map showTree) ++ ")"
+
+def isNode : Peg.Tree → Bool | .node _ _ _ _ => true | _ => false
+
+/-- projection onto what the Python AST keeps: the short-if condition is stored unwrapped (`exp.value`), an empty
+short-if `else` chunk is dropped -/
+partial def project : Peg.Tree → List Peg.Tree
+  | .leaf i => [.leaf i]
+  | .node k s e cs =>
+    let cs' := (cs.map project).flatten
+    if k == Gram.kStatIfShort then
+      match cs'.filter isNode with
+      | (.node k0 _ _ inner) :: rest =>
+        if k0 == Gram.kExpValue then
+          let innerNodes := inner.filter isNode
+          let rest' := match rest with
+            | [blk, (.node kc s2 e2 cs2)] =>
+              if kc == Gram.kChunk && (cs2.filter isNode).isEmpty then [blk] else [blk, .node kc s2 e2 cs2]
+            | r => r
+          [.node k s e (innerNodes ++ rest')]
+        else [.node k s e cs']
+      | _ => [.node k s e cs']
+    else [.node k s e cs']
+
+def parseToks (toks : List Lex.Tok) : String :=
+  let arr := toks.toArray
+  let fuel := 50 * arr.size + 200
+  match Peg.run Gram.gram arr fuel (.nt Gram.nChunk) { pos := 0, maxPos := none } with
+  | .error e => showErr e
+  | .ok none => "err parse"
+  | .ok (some (ts, _)) => "ok " ++ String.join ((ts.map project).flatten.map showTree)
 
 def rowsOfFlat (w : Nat) (flat : Bytes) : List Bytes := chunks (4 * w) flat
 
@@ -317,6 +352,10 @@ def handle (st : St) (line : String) : St × String :=
   | ["tokcount", cs] => (parseChunks cs).elim "bad-op" fun l =>
       match Lex.lex l with
       | .ok ts => s!"ok {Wr.tokenCount ts}"
+      | .error e => showErr e
+  | ["parse", cs] => (parseChunks cs).elim "bad-op" fun l =>
+      match Lex.lex l with
+      | .ok ts => parseToks ts
       | .error e => showErr e
   | ["speclex", h] => (parseHex h).elim "bad-op" fun d =>
       match Spec.Lex.lexSource d with
